@@ -62,3 +62,58 @@ Definition same_map a b := submap a b && submap b a.
 
 Fixpoint nodupb (l : list string) : bool :=
   match l with [] => true | x :: r => negb (existsb (String.eqb x) r) && nodupb r end.
+
+(* ------------------------------------------------------------------------------------------------------------------
+   Access paths.  A document is a tree of tagged nodes; a wrapper is a Python object: its class and the node it wraps
+   (the node is named by its position in the document).  Every access path of the library ends in one of two factories:
+     Element.from_tag(node)  /  Element.from_tag_for_clone(node, cache)     -- called ON THE BASE CLASS: fallback "Element"
+     self.from_tag(copy)      in Element.clone                               -- called on the wrapper's own class
+   (that this is so in the sources is the generated table wrap_sites + C12_wrap_sites_as_modelled).
+   children / parent / root / get_element(s) / xpath / typed finders / traverse: the node reached varies, the factory does not. *)
+Inductive xtree := XNode (tag : string) (kids : list xtree).
+Definition xtag (t : xtree) : string := match t with XNode g _ => g end.
+Definition xkids (t : xtree) : list xtree := match t with XNode _ k => k end.
+
+Fixpoint node_at (t : xtree) (pos : list nat) : option xtree :=
+  match pos with
+  | [] => Some t
+  | i :: r => match nth_error (xkids t) i with Some c => node_at c r | None => None end
+  end.
+
+Record wrapper := mkW { w_cls : string; w_pos : list nat }.
+
+Inductive access :=
+| AChild (i : nat)              (* children[i] *)
+| AParent                       (* parent *)
+| ARoot                         (* root *)
+| ASelect (pos : list nat)      (* any node an XPath / get_elements / get_element / typed finder / traverse returns *)
+| AClone.                       (* clone: a copy of the same node, wrapped by self.from_tag *)
+
+Definition wrap_at (reg : list (string * string)) (fallback : string) (doc : xtree) (pos : list nat) : option wrapper :=
+  match node_at doc pos with Some n => Some (mkW (from_tag reg fallback (xtag n)) pos) | None => None end.
+
+Definition access_step (reg : list (string * string)) (doc : xtree) (w : wrapper) (a : access) : option wrapper :=
+  match a with
+  | AChild i => wrap_at reg Element doc (w_pos w ++ [i])
+  | AParent => match w_pos w with [] => None | _ => wrap_at reg Element doc (removelast (w_pos w)) end
+  | ARoot => wrap_at reg Element doc []
+  | ASelect pos => wrap_at reg Element doc pos
+  | AClone => wrap_at reg (w_cls w) doc (w_pos w)
+  end.
+
+Fixpoint access_run (reg : list (string * string)) (doc : xtree) (w : wrapper) (l : list access) : option wrapper :=
+  match l with
+  | [] => Some w
+  | a :: r => match access_step reg doc w a with Some w' => access_run reg doc w' r | None => None end
+  end.
+
+(* the class the registry gives to the node a wrapper wraps *)
+Definition consistent (reg : list (string * string)) (doc : xtree) (w : wrapper) : Prop :=
+  exists n, node_at doc (w_pos w) = Some n /\ w_cls w = from_tag reg Element (xtag n).
+
+(* a wrapper-creation site of the sources is one the model knows: the base class everywhere, self in clone, the two
+   direct constructions inside the factories themselves *)
+Definition site_ok (x : string * (string * (string * string))) : bool :=
+  let fn := fst (snd x) in let recv := fst (snd (snd x)) in let fac := snd (snd (snd x)) in
+  if String.eqb fac "direct" then (String.eqb fn "from_tag" || String.eqb fn "from_tag_for_clone") && String.eqb recv "klass"
+  else String.eqb recv "Element" || (String.eqb fn "clone" && String.eqb recv "self" && String.eqb fac "from_tag").
